@@ -62,3 +62,27 @@ Theorem C04_min_norm_point_nonconflicting : forall n J wstar i, wfmat n J -> hul
   dotR (vmR n wstar J) (vmR n wstar J) <= dotR (nth i J []) (vmR n wstar J).
 Proof. exact hull_min_nonconflicting. Qed.
 Print Assumptions C04_min_norm_point_nonconflicting.
+
+(* ---- CAGrad with c >= 1 (added): from optimality of the conic program's answer (the solver
+   contract; first-order conditions are DERIVED from it), no objective is opposed ---- *)
+From TJ.proofs Require Import PublishedProofs.
+Theorem C04_cagrad : forall n J s ne c w_opt,
+  wfmat n J -> J <> [] -> 0 < s -> nltb RN s ne = false -> 0 < ne -> 1 <= c ->
+  let Gn := normalized_gramian RN (gramR J) s ne in
+  nleb RN ne (sqrt (quadform RN Gn w_opt)) = true ->
+  cagrad_opt Gn c w_opt ->
+  forall i, (i < length J)%nat -> 0 <= nth i (mvR J (agg_cagrad RN s ne c w_opt J)) 0.
+Proof. exact cagrad_c_ge_1_nonconflicting_opt. Qed.
+Print Assumptions C04_cagrad.
+Theorem C04_cagrad_below_threshold : forall n J s ne c w_opt, wfmat n J -> J <> [] ->
+  nleb RN ne (sqrt (quadform RN (normalized_gramian RN (gramR J) s ne) w_opt)) = false ->
+  forall i, nth i (mvR J (agg_cagrad RN s ne c w_opt J)) 0 = 0.
+Proof. exact cagrad_below_threshold_nonconflicting. Qed.
+Print Assumptions C04_cagrad_below_threshold.
+(* MGDA on two rows: exactly non-conflicting after one step *)
+Theorem C04_mgda_two_rows : forall n g1 g2 eps iters, length g1 = n -> length g2 = n ->
+  (1 <= iters)%nat ->
+  let x := agg_mgda RN eps iters [g1; g2] in
+  0 <= dotR g1 x /\ 0 <= dotR g2 x.
+Proof. exact mgda_two_rows_nonconflicting. Qed.
+Print Assumptions C04_mgda_two_rows.
